@@ -18,7 +18,7 @@ func init() {
 		TrustedBase: []string{"harness normal form internal/nf", "real rules validator as the generator of valid documents"},
 		Guards:      map[string]int64{"structure_docs": 1000, "value_docs": 10000, "array_docs": 2000},
 		Run: func(c *fx.Ctx) {
-			o := corpusOpts{structDepth: c.Pick(6, 7), floatStride: c.Pick(8, 1), latlong: c.Pick(20, 100), arrayFullMax: c.Pick(5, 6), padding: true, contextsAll: c.Thorough()}
+			o := corpusOpts{refMaxLen: c.Pick(7, 9), structDepth: c.Pick(6, 7), floatStride: c.Pick(8, 1), latlong: c.Pick(20, 100), arrayFullMax: c.Pick(5, 6), padding: true, contextsAll: c.Thorough()}
 			forEachCorpusDoc(c, o, func(doc []ev.E, cls string) {
 				_, _, ok := roundTrip(c, codec.CBE, doc, cls)
 				if ok {
